@@ -69,7 +69,7 @@ var Props = []PropInfo{
 		NotDecided:  "SQL semantics of the generated joins for concrete table contents; tie-breaking among equal timestamps.",
 		Assumptions: trust("goqu v9 semantics: Limit(0) clears the limit, Gte/Lte are inclusive comparisons", "SQLite compares identifiers ASCII case-insensitively")},
 	{ID: "C07",
-		Explanation: "Structural necessary conditions of router delivery: nothing reachable from Publish blocks (no bare send/receive, no blocking select, no exclusive lock, no handler call) (PUB-NB) and nothing reachable from it writes shared memory (PUB-RO); Subscribe/Publish/Unsubscribe are called synchronously before the EOSE/OK is returned, with the right ids (SUB-SYNC); UnsubscribeAll of the session id is deferred before the loop (UNSUB-ALL); every reply constructor is labelled with the id of the request bound in its clause (LABEL); the registry is keyed connection-id then subscription-id (SUB-KEY); the per-connection queue has the configured capacity and one receiver (BUF).",
+		Explanation: "Structural necessary conditions of router delivery: nothing reachable from Publish blocks (no bare send/receive, no blocking select, no exclusive lock, no handler call) (PUB-NB) and nothing reachable from it writes shared memory (PUB-RO); the walk from Publish to the per-subscriber send leaves no loop early, so every registered subscriber is offered the event (PUB-ALL); Subscribe/Publish/Unsubscribe are called synchronously before the EOSE/OK is returned, with the right ids (SUB-SYNC); UnsubscribeAll of the session id is deferred before the loop (UNSUB-ALL); every reply constructor is labelled with the id of the request bound in its clause (LABEL); the registry is keyed connection-id then subscription-id (SUB-KEY); the per-connection queue has the configured capacity and one receiver (BUF).",
 		NotDecided:  "exactly-once / real-time-order delivery over interleavings; drop counts under back-pressure.",
 		Assumptions: trust("sync.RWMutex semantics")},
 	{ID: "C08",
@@ -89,7 +89,7 @@ var Props = []PropInfo{
 		NotDecided:  "that every well-formed text parses (decoder completeness beyond the dispatch prefix).",
 		Assumptions: trust("regexp/syntax parses the pattern as regexp does")},
 	{ID: "C12",
-		Explanation: "Structural necessary conditions of the WebSocket gate: the pass edges of text-frame, utf8.Valid, json.Valid, ParseClientMsg err==nil, ValidClientMsg, and for EVENT Verify err==nil and true each edge-dominate the single send on the handler's inbound channel, and the forwarded value is the parse result (GATE-CHAIN); every entry→return path either forwards (no notice) or sends exactly one server message or fails the connection (GATE-ONE-NOTICE); nobody else sends on or closes that channel (RECV-OWNER); every value received from send flows through json.Marshal to one conn.Write with MessageText (WRITE-PATH); dispatch admits leading whitespace (DISPATCH-WS).",
+		Explanation: "Structural necessary conditions of the WebSocket gate: the pass edges of text-frame, utf8.Valid, json.Valid, ParseClientMsg err==nil, ValidClientMsg, and for EVENT Verify err==nil and true each edge-dominate the single send on the handler's inbound channel, and the forwarded value is the parse result (GATE-CHAIN); every entry→return path either forwards (no notice) or sends exactly one server message or fails the connection (GATE-ONE-NOTICE); nobody else sends on or closes that channel (RECV-OWNER); every value received from send flows through json.Marshal to one conn.Write with MessageText (WRITE-PATH); dispatch admits leading whitespace (DISPATCH-WS). The validity verdict the gate relies on is the C11 rule set (VAL-DOM, VAL-SLICE, VAL-EXH, NADDR-SPLIT, DISPATCH-WS): 'invalid field ⇒ one rejection, valid frame ⇒ delivered' cannot hold if a validator accepts or refuses the wrong values.",
 		NotDecided:  "the WebSocket library; frame-level behaviour.",
 		Assumptions: trust("coder/websocket Read/Write semantics")},
 	{ID: "C13",
